@@ -7,7 +7,7 @@
                        (3 w) InsertOne | (4 (ups) (rows)) InsertMany | (5 w) ReplaceLast
                        (6 w) Replace | (7 w) Delete | (8) GetEvent | (9 b) GetEvents
                        (10) GetEventCount | (11) Buckets | (12) GetMetadata | (13) Rejected
-                       (14 (ups) (done)) InsertManyFailed
+                       (14 (ups) (done) rest) InsertManyFailed
    cases:
      (0 lazy t0 ((micro clk) ...))  run from [init [] t0]; answer: one
                                     (|committed| |pending| n last_commit) per micro-step,
@@ -63,8 +63,11 @@ Definition sOp (s : sexp) : option op :=
   | L [A 11] => Some Buckets
   | L [A 12] => Some GetMetadata
   | L [A 13] => Some Rejected
-  | L [A 14; ups; done] =>
-      match sZs ups, sZs done with Some u, Some d => Some (InsertManyFailed u d) | _, _ => None end
+  | L [A 14; ups; done; A rest] =>
+      match sZs ups, sZs done with
+      | Some u, Some d => if rest <? 0 then None else Some (InsertManyFailed u d (Z.to_nat rest))
+      | _, _ => None
+      end
   | _ => None
   end.
 
